@@ -205,6 +205,32 @@ theorem mismatch_is_fault (s : State) (p : Promise) (len cid : Int)
     simp [failCur]
   · simp [failCur, afterTake]
 
+/-- … and a matching, valid header is NOT a fault: the receiver goes on to read exactly the announced body
+    (the "iff" of FIFO matching, step level) -/
+theorem match_is_not_fault (s : State) (p : Promise) (len : Int)
+    (hcur : s.cur = some (p, .header)) (hav : headerLength p.hv ≤ s.inbuf.length)
+    (hdec : decodeHeader s.cfg.maxResp p.hv (s.inbuf.take (headerLength p.hv)) = .ok len p.cid) :
+    ∃ s1, step s .recvHeader = .ok s1 ∧ s1.dead = s.dead ∧ s1.done = s.done ∧
+      s1.cur = some (p, .body (s.inbuf.take (headerLength p.hv)) (bodyLength len (headerLength p.hv))) ∧
+      s1.inbuf = s.inbuf.drop (headerLength p.hv) := by
+  refine ⟨{ afterTake s (headerLength p.hv) with
+            cur := some (p, .body (s.inbuf.take (headerLength p.hv)) (bodyLength len (headerLength p.hv))) },
+    ?_, rfl, rfl, rfl, rfl⟩
+  simp only [step, stepRecvHeader, hcur]
+  rw [if_neg (by omega), hdec]
+  simp only [ne_eq, not_true_eq_false, ↓reduceIte, afterTake]
+
+/-- once the announced number of body bytes is there, they are delivered to the promise whose header was read,
+    and to nobody else -/
+theorem body_is_delivered (s : State) (p : Promise) (hdr : Bytes) (need : Nat)
+    (hcur : s.cur = some (p, .body hdr need)) (hav : need ≤ s.inbuf.length) :
+    ∃ s2, step s .recvBody = .ok s2 ∧ s2.dead = s.dead ∧ s2.cur = none ∧
+      s2.done = s.done ++ [⟨p, .delivered (s.inbuf.take need), hdr⟩] := by
+  refine ⟨{ s with inbuf := s.inbuf.drop need, consumed := s.consumed ++ s.inbuf.take need, cur := none,
+                   done := s.done ++ [⟨p, .delivered (s.inbuf.take need), hdr⟩] }, ?_, rfl, rfl, rfl⟩
+  simp only [step, stepRecvBody, hcur]
+  rw [if_neg (by omega)]
+
 /-- conversely, on every reachable state: whatever was delivered had the promise's own id in its header and a
     valid length -/
 theorem delivered_ids_match {cfg : Cfg} {c0 : Int} {s : State} (hm : 1 ≤ cfg.maxOpen) (hr : Reach cfg c0 s)
